@@ -39,7 +39,9 @@ func HostPickler(x starlark.Value) (string, string, starlark.Tuple, error) {
 // globals) is encoded as the stand-in host.Rec(name).
 type HostPicklerT struct{}
 
-func (HostPicklerT) Pickle(x starlark.Value) (string, string, starlark.Tuple, error) { return HostPickler(x) }
+func (HostPicklerT) Pickle(x starlark.Value) (string, string, starlark.Tuple, error) {
+	return HostPickler(x)
+}
 func (HostPicklerT) PickleRecursive(x starlark.Value) (string, string, starlark.Tuple, error) {
 	if h, ok := x.(*HostObj); ok {
 		return "vh", "Rec", starlark.Tuple{starlark.String(h.Name)}, nil
@@ -86,7 +88,7 @@ func BoundaryInts() []starlark.Int {
 }
 
 var StringLens = []int{0, 1, 2, 254, 255, 256, 257, 65535, 65536, 70000}
-var SizeClasses = []int{0, 1, 2, 3, 4, 5, 999, 1000, 1001, 2000, 2001, 3001}
+var SizeClasses = []int{0, 1, 2, 3, 4, 5, 7, 8, 9, 10, 15, 16, 17, 33, 64, 100, 255, 256, 257, 999, 1000, 1001, 2000, 2001, 3001}
 
 type Gen struct {
 	R    *rand.Rand
@@ -220,8 +222,11 @@ func (g *Gen) Value(depth int, pool *[]starlark.Value) starlark.Value {
 		return (*pool)[g.R.IntN(len(*pool))]
 	}
 	n := g.R.IntN(6)
-	if g.R.IntN(40) == 0 {
+	switch k := g.R.IntN(40); {
+	case k == 0:
 		n = SizeClasses[g.R.IntN(len(SizeClasses))]
+	case k < 4:
+		n = 6 + g.R.IntN(20) // the sizes between "a handful" and "a batch"
 	}
 	elem := func() starlark.Value {
 		if n > 50 {
